@@ -6,6 +6,7 @@
 #![allow(unused_imports, unused_variables, unused_mut, dead_code)]
 use vstd::prelude::*;
 verus!{
+//@include common/std_extra.rs
 // =====================================================================
 // lemmas (proof-only, hand-written)
 // =====================================================================
@@ -94,7 +95,7 @@ impl RaftStorage {
             == old(self).logv().filter(below(entries@[0].index)) + entries@,  //#replace_suffix
         final(self).wf(),                                               //#log_wf
         final(self).snap() == old(self).snap(),                         //#snap_frame
-//@closure 1 (e: &LogEntry) -> (b: bool) ensures b == (@BODY)
+//@closure retain#1 (e: &LogEntry) -> (b: bool) ensures b == (@BODY)
 //@after ".retain("
             proof {
                 let s = old(self).log@;
@@ -115,7 +116,7 @@ impl RaftStorage {
         self.wf(),
 //@ensures
         r.is_some() ==> self.logv().contains(r.unwrap()) && r.unwrap().index == index,   //#some_is_member
-//@closure 1 (e: &&LogEntry) -> (b: bool) ensures b == (@BODY)
+//@closure find#1 (e: &&LogEntry) -> (b: bool) ensures b == (@BODY)
 //@end
 
 //@fn RaftStorage::get_last_log_index_term ret=r
@@ -132,7 +133,7 @@ impl RaftStorage {
         final(self).logv() == old(self).logv().filter(below(index)),        //#truncates_from
         final(self).snap() == old(self).snap(),                             //#snap_frame
         final(self).wf(),                                                   //#log_wf
-//@closure 1 (e: &LogEntry) -> (b: bool) ensures b == (@BODY)
+//@closure retain#1 (e: &LogEntry) -> (b: bool) ensures b == (@BODY)
 //@after ".retain("
         proof {
             let s = old(self).log@;
@@ -152,7 +153,7 @@ impl RaftStorage {
         final(self).snap() == Some((index, term)),                          //#records_snapshot
         final(self).logv() == old(self).logv().filter(above(index)),        //#keeps_tail
         final(self).wf(),                                                   //#log_wf
-//@closure 1 (e: &LogEntry) -> (b: bool) ensures b == (@BODY)
+//@closure retain#1 (e: &LogEntry) -> (b: bool) ensures b == (@BODY)
 //@after ".retain("
         proof {
             let s = old(self).log@;
